@@ -2,7 +2,8 @@
 
 Translator-backed: `go/cmd/extract15` regenerates `lean/Sentinel/Gen/Access.lean` (the access table) from the Go
 source of $VERIF_REPO on every run; `Sentinel.Props.C15` re-proves `table_disciplined`, `atomics_never_mixed`,
-`lock_order_acyclic`, `slots_single_snapshot`, `inserts_rechecked`, `extractor_understood_everything` on it by kernel evaluation, next to
+`lock_order_acyclic`, `slots_single_snapshot`, `inserts_rechecked`, `sections_panic_safe`, `caller_data_never_mutated`,
+`extractor_understood_everything` on it by kernel evaluation, next to
 the general theorems (`discipline_implies_exclusion`, `switch_is_atomic`, ...).  The dynamic cross-check is the stress
 program `go/cmd/race15` built with `-race -tags verif`: every report of the race detector has to be predicted by a
 table pair that the static check flags (and that a listed known finding excuses), and the atomic-switch oracles must
@@ -97,7 +98,8 @@ def _write_placeholder(why):
                 "def classNames : List (Nat × String) := []\ndef mutexNames : List (Nat × String) := []\n"
                 "def accesses : List Access := []\ndef atomicFields : List (Nat × String) := []\n"
                 "def plainUses : List PlainUse := []\ndef lockEdges : List LockEdge := []\ndef lockRanks : List (Nat × Nat) := []\n"
-                "def slotShapes : List SlotShape := []\n"
+                "def slotShapes : List SlotShape := []\ndef inserts : List Insert := []\ndef riskyOps : List RiskyOp := []\n"
+                "def callerStores : List CallerStore := []\ndef fieldWrites : List FieldWrite := []\n"
                 "def unknowns : List Unknown := [⟨0, .live, \"extract15\", \"-\", \"" + why + "\"⟩]\n"
                 "def setupOnly : List String := []\nend Sentinel.Gen.Access\n")
 
@@ -128,6 +130,9 @@ def exI := resolve classNames knownInserts
   for r in inserts do
     if !insertOkB accesses exI r then IO.println s!"BADINSERT {r.id}"
     if !insertOkB accesses [] r then IO.println s!"RAWINSERT {r.id}"
+  for r in riskyOps do
+    if !riskyOkB r then IO.println s!"BADRISKY {r.id}"
+  for (s, w) in callerDataBad callerStores fieldWrites do IO.println s!"BADCALLER {s.id} {w.id}"
   for u in unknowns do
     if u.phase == Phase.live then IO.println s!"BADUNKNOWN {u.id}"
   IO.println s!"KNOWNINSERTS {knownInserts}"
@@ -150,7 +155,7 @@ def lean_report():
     if rc != 0 or "REPORT-END" not in so:
         raise RuntimeError("report script failed:\n" + (so + se)[-3000:])
     rep = {"BAD": [], "RAW": [], "BADPLAIN": [], "RAWPLAIN": [], "BADEDGE": [], "BADSHAPE": [], "RAWSHAPE": [], "BADUNKNOWN": [],
-           "BADINSERT": [], "RAWINSERT": [], "text": so}
+           "BADINSERT": [], "RAWINSERT": [], "BADRISKY": [], "BADCALLER": [], "text": so}
     for l in so.splitlines():
         t = l.split()
         if t and t[0] in rep and t[0] != "text":
@@ -195,6 +200,15 @@ def static_stage(ctx, tab):
     if set(rep["RAWINSERT"]) - set(rep["BADINSERT"]):
         present.add(KEY_INSERT)
     lines = []
+    for (i,) in rep["BADRISKY"]:
+        r = tab["riskyOps"][i]
+        lines.append("sections_panic_safe fails: unlockNotDeferred: %s @ %s runs `%s` inside the critical section of %s, which is closed by an explicit "
+                     "(non-deferred) unlock — a panic on caller-controlled data, recovered further up, leaves the mutex locked forever"
+                     % (r["fn"], r["pos"], r["op"], r["mu"]))
+    for (i, j) in rep["BADCALLER"]:
+        st, fw = tab["callerStores"][i], tab["fieldWrites"][j]
+        lines.append("caller_data_never_mutated fails: callerDataMutated: %s @ %s stores the caller's `%s` in %s without copying, and %s @ %s writes "
+                     "through that field (%s)" % (st["fn"], st["pos"], st["param"], st["field"], fw["fn"], fw["pos"], fw["op"]))
     for (i,) in rep["BADINSERT"]:
         r = tab["inserts"][i]
         writers = sorted({b["fn"] for b in acc if b["class"] == r["class"] and b["write"] and b["phase"] == "live"})
@@ -222,7 +236,8 @@ def static_stage(ctx, tab):
         lines.append("extractor_understood_everything fails: %s @ %s: %s" % (u["fn"], u["pos"], u["what"]))
     ctx.cov["table"] = {"accesses": len(acc), "classes": len(tab["vars"]), "plain_uses": len(tab["plainUses"]), "atomic_fields": len(tab["atomicFields"]),
                         "atomic_uses": tab["atomicUses"], "lock_edges": len(tab["lockEdges"]), "slot_shapes": len(tab["slotShapes"]),
-                        "unknowns": len(tab["unknowns"]), "inserts": len(tab["inserts"]),
+                        "unknowns": len(tab["unknowns"]), "inserts": len(tab["inserts"]), "risky_ops_in_sections": len(tab["riskyOps"]),
+                        "caller_stores": len(tab["callerStores"]), "field_writes": len(tab["fieldWrites"]),
                         "inserts_live": sum(1 for r in tab["inserts"] if r["phase"] == "live"), "live_rows": sum(1 for r in acc if r["phase"] == "live"),
                         "live_writes": sum(1 for r in acc if r["phase"] == "live" and r["write"]),
                         "pairs_flagged_raw": len(rep["RAW"]), "pairs_flagged_unexcused": len(rep["BAD"])}
